@@ -142,7 +142,7 @@ pub fn run(tier: Tier) -> i32 {
     let mut report = Report::new("C19", tier, "model_checking");
     let alpha = alphabet();
     let k = alpha.len();
-    let maxlen = tier.pick(4, 6);
+    let maxlen = tier.pick(4, 7);
     let mut states: BTreeSet<u64> = BTreeSet::new();
     let mut transitions = 0u64;
     let mut traces = 0u64;
